@@ -29,21 +29,21 @@ open InfluxQL Gen InfluxQL.Sanitize
 
 /-- The two pattern sources are the ones the matcher was specialised for. -/
 theorem gen_patterns :
-    sanitizeSetPasswordSource = ['(', '?', 'i', ')', 'p', 'a', 's', 's', 'w', 'o', 'r', 'd', '\\', 's', '+', 'f', 'o', 'r', '[', '^', '=', ']', '*', '=', '\\', 's', '+', '(', '[', '"', '\'', ']', '?', '[', '^', '\\', 's', '"', ']', '+', '[', '"', '\'', ']', '?', ')'] ∧
-    sanitizeCreatePasswordSource = ['(', '?', 'i', ')', 'w', 'i', 't', 'h', '\\', 's', '+', 'p', 'a', 's', 's', 'w', 'o', 'r', 'd', '\\', 's', '+', '(', '[', '"', '\'', ']', '?', '[', '^', '\\', 's', '"', ']', '+', '[', '"', '\'', ']', '?', ')'] := by decide
+    sanitizeSetPasswordSource = /- (?i)password\s+for[^=]*=\s+(["']?[^\s"]+["']?) -/ ['(', '?', 'i', ')', 'p', 'a', 's', 's', 'w', 'o', 'r', 'd', '\\', 's', '+', 'f', 'o', 'r', '[', '^', '=', ']', '*', '=', '\\', 's', '+', '(', '[', '"', '\'', ']', '?', '[', '^', '\\', 's', '"', ']', '+', '[', '"', '\'', ']', '?', ')'] ∧
+    sanitizeCreatePasswordSource = /- (?i)with\s+password\s+(["']?[^\s"]+["']?) -/ ['(', '?', 'i', ')', 'w', 'i', 't', 'h', '\\', 's', '+', 'p', 'a', 's', 's', 'w', 'o', 'r', 'd', '\\', 's', '+', '(', '[', '"', '\'', ']', '?', '[', '^', '\\', 's', '"', ']', '+', '[', '"', '\'', ']', '?', ')'] := by decide
 
 /-- The replacement text and the order of the passes. -/
 theorem gen_replacement :
-    sanitizeReplacement = ['[', 'R', 'E', 'D', 'A', 'C', 'T', 'E', 'D', ']'] ∧
-    sanitizePassOrder = [['s', 'a', 'n', 'i', 't', 'i', 'z', 'e', 'S', 'e', 't', 'P', 'a', 's', 's', 'w', 'o', 'r', 'd'], ['s', 'a', 'n', 'i', 't', 'i', 'z', 'e', 'C', 'r', 'e', 'a', 't', 'e', 'P', 'a', 's', 's', 'w', 'o', 'r', 'd']] := by decide
+    sanitizeReplacement = /- [REDACTED] -/ ['[', 'R', 'E', 'D', 'A', 'C', 'T', 'E', 'D', ']'] ∧
+    sanitizePassOrder = [/- sanitizeSetPassword -/ ['s', 'a', 'n', 'i', 't', 'i', 'z', 'e', 'S', 'e', 't', 'P', 'a', 's', 's', 'w', 'o', 'r', 'd'], /- sanitizeCreatePassword -/ ['s', 'a', 'n', 'i', 't', 'i', 'z', 'e', 'C', 'r', 'e', 'a', 't', 'e', 'P', 'a', 's', 's', 'w', 'o', 'r', 'd']] := by decide
 
 /-- The two `String` methods, statement by statement. -/
 theorem gen_printers :
     createUserStringPieces =
-      [.lit ['C', 'R', 'E', 'A', 'T', 'E', ' ', 'U', 'S', 'E', 'R', ' '], .quoteIdentName, .lit [' ', 'W', 'I', 'T', 'H', ' ', 'P', 'A', 'S', 'S', 'W', 'O', 'R', 'D', ' '], .lit ['[', 'R', 'E', 'D', 'A', 'C', 'T', 'E', 'D', ']'],
-       .ifAdmin [' ', 'W', 'I', 'T', 'H', ' ', 'A', 'L', 'L', ' ', 'P', 'R', 'I', 'V', 'I', 'L', 'E', 'G', 'E', 'S']] ∧
+      [.lit /- CREATE USER  -/ ['C', 'R', 'E', 'A', 'T', 'E', ' ', 'U', 'S', 'E', 'R', ' '], .quoteIdentName, .lit /-  WITH PASSWORD  -/ [' ', 'W', 'I', 'T', 'H', ' ', 'P', 'A', 'S', 'S', 'W', 'O', 'R', 'D', ' '], .lit /- [REDACTED] -/ ['[', 'R', 'E', 'D', 'A', 'C', 'T', 'E', 'D', ']'],
+       .ifAdmin /-  WITH ALL PRIVILEGES -/ [' ', 'W', 'I', 'T', 'H', ' ', 'A', 'L', 'L', ' ', 'P', 'R', 'I', 'V', 'I', 'L', 'E', 'G', 'E', 'S']] ∧
     setPasswordUserStringPieces =
-      [.lit ['S', 'E', 'T', ' ', 'P', 'A', 'S', 'S', 'W', 'O', 'R', 'D', ' ', 'F', 'O', 'R', ' '], .quoteIdentName, .lit [' ', '=', ' '], .lit ['[', 'R', 'E', 'D', 'A', 'C', 'T', 'E', 'D', ']']] := by decide
+      [.lit /- SET PASSWORD FOR  -/ ['S', 'E', 'T', ' ', 'P', 'A', 'S', 'S', 'W', 'O', 'R', 'D', ' ', 'F', 'O', 'R', ' '], .quoteIdentName, .lit [' ', '=', ' '], .lit /- [REDACTED] -/ ['[', 'R', 'E', 'D', 'A', 'C', 'T', 'E', 'D', ']']] := by decide
 
 /-- Neither `String` method mentions the `Password` field. -/
 theorem gen_no_password_reads :
@@ -60,9 +60,9 @@ theorem print_noninterference (name p p' : List Char) (admin : Bool) :
 /-- What is printed instead. -/
 theorem print_forms (name p : List Char) (admin : Bool) :
     printCreateUser name p admin =
-      ['C', 'R', 'E', 'A', 'T', 'E', ' ', 'U', 'S', 'E', 'R', ' '] ++ quoteIdent [name] ++ [' ', 'W', 'I', 'T', 'H', ' ', 'P', 'A', 'S', 'S', 'W', 'O', 'R', 'D', ' ', '[', 'R', 'E', 'D', 'A', 'C', 'T', 'E', 'D', ']'] ++
-        (if admin then [' ', 'W', 'I', 'T', 'H', ' ', 'A', 'L', 'L', ' ', 'P', 'R', 'I', 'V', 'I', 'L', 'E', 'G', 'E', 'S'] else []) ∧
-    printSetPasswordUser name p = ['S', 'E', 'T', ' ', 'P', 'A', 'S', 'S', 'W', 'O', 'R', 'D', ' ', 'F', 'O', 'R', ' '] ++ quoteIdent [name] ++ [' ', '=', ' ', '[', 'R', 'E', 'D', 'A', 'C', 'T', 'E', 'D', ']'] := by
+      /- CREATE USER  -/ ['C', 'R', 'E', 'A', 'T', 'E', ' ', 'U', 'S', 'E', 'R', ' '] ++ quoteIdent [name] ++ /-  WITH PASSWORD [REDACTED] -/ [' ', 'W', 'I', 'T', 'H', ' ', 'P', 'A', 'S', 'S', 'W', 'O', 'R', 'D', ' ', '[', 'R', 'E', 'D', 'A', 'C', 'T', 'E', 'D', ']'] ++
+        (if admin then /-  WITH ALL PRIVILEGES -/ [' ', 'W', 'I', 'T', 'H', ' ', 'A', 'L', 'L', ' ', 'P', 'R', 'I', 'V', 'I', 'L', 'E', 'G', 'E', 'S'] else []) ∧
+    printSetPasswordUser name p = /- SET PASSWORD FOR  -/ ['S', 'E', 'T', ' ', 'P', 'A', 'S', 'S', 'W', 'O', 'R', 'D', ' ', 'F', 'O', 'R', ' '] ++ quoteIdent [name] ++ /-  = [REDACTED] -/ [' ', '=', ' ', '[', 'R', 'E', 'D', 'A', 'C', 'T', 'E', 'D', ']'] := by
   constructor
   · simp [printCreateUser, printPieces, createUserStringPieces]
   · simp [printSetPasswordUser, printPieces, setPasswordUserStringPieces]
@@ -77,25 +77,6 @@ theorem sanitize_no_clause_id (xs : List Char)
   unfold sanitize passSet passCreate
   rw [pass_no_match _ _ _ h1]
   exact pass_no_match _ _ _ h2
-
-/-- Does the word `password` (in any case, with U+017F for `s`) occur in the text? -/
-def hasPasswordWord : List Char → Bool
-  | [] => false
-  | c :: t => (matchKw kwPassword (c :: t)).isSome || hasPasswordWord t
-
-theorem hasPasswordWord_spec {xs : List Char} (h : hasPasswordWord xs = false) :
-    ∀ s, s <:+ xs → matchKw kwPassword s = none := by
-  induction xs with
-  | nil =>
-    intro s hs
-    rw [List.eq_nil_of_suffix_nil hs]
-    rfl
-  | cons c t ih =>
-    simp only [hasPasswordWord, Bool.or_eq_false_iff, Option.isSome_eq_false_iff, Option.isNone_iff_eq_none] at h
-    intro s hs
-    rcases List.suffix_cons_iff.mp hs with rfl | h'
-    · exact h.1
-    · exact ih h.2 s h'
 
 /-- Every text that does not contain the word `password` is returned unchanged. -/
 theorem sanitize_no_password_word_id (xs : List Char) (h : hasPasswordWord xs = false) :
@@ -136,71 +117,6 @@ theorem sanitize_only_literal (xs : List Char) :
   have h2 := pass_redacts matchCreatePassword_ok ((passSet xs).length + 1) (passSet xs) (Nat.lt_succ_self _)
   exact ⟨passSet xs, h1, h2, h1.edit matchSetPassword_ok, h2.edit matchCreatePassword_ok⟩
 
-theorem closeQuote_no_space {g rest : List Char} (hg : ∀ c ∈ g, isSpace c = false) :
-    ∀ c ∈ (closeQuote g rest).1, isSpace c = false := by
-  unfold closeQuote
-  split
-  · rename_i q r
-    split
-    · rename_i hq
-      intro c hc
-      rcases List.mem_append.mp hc with h | h
-      · exact hg c h
-      · simp at h
-        subst h
-        unfold isQuote at hq
-        cases h1 : (c == '"') <;> cases h2 : (c == '\'') <;> simp_all <;> decide
-    · exact hg
-  · exact hg
-
-theorem groupBody_no_space {xs g r : List Char} (h : groupBody xs = some (g, r)) :
-    ∀ c ∈ g, isSpace c = false := by
-  unfold groupBody at h
-  split at h
-  · simp at h
-  · simp only [Option.some.injEq] at h
-    have := closeQuote_no_space (g := xs.takeWhile isPw) (rest := xs.dropWhile isPw)
-      (fun c hc => isPw_not_space (mem_takeWhile_sat _ _ _ hc))
-    rw [h] at this
-    exact this
-
-theorem matchGroup_no_space {xs g r : List Char} (h : matchGroup xs = some (g, r)) :
-    ∀ c ∈ g, isSpace c = false := by
-  unfold matchGroup at h
-  split at h
-  · simp at h
-  · rename_i q t
-    split at h
-    · rename_i hq
-      split at h
-      · rename_i g' r' hb
-        simp only [Option.some.injEq, Prod.mk.injEq] at h
-        obtain ⟨rfl, rfl⟩ := h
-        intro c hc
-        rcases List.mem_cons.mp hc with rfl | hc
-        · unfold isQuote at hq
-          cases h1 : (c == '"') <;> cases h2 : (c == '\'') <;> simp_all <;> decide
-        · exact groupBody_no_space hb c hc
-      · exact groupBody_no_space h
-    · exact groupBody_no_space h
-
-theorem spacesGroup_shape {pre xs p g rest : List Char} (h : spacesGroup pre xs = some (p, g, rest)) :
-    (∀ c ∈ g, isSpace c = false) ∧ ∃ p' w, p = p' ++ [w] ∧ isSpace w = true := by
-  unfold spacesGroup at h
-  split at h
-  · simp at h
-  · rename_i w r hw
-    split at h
-    · simp at h
-    · rename_i g' rest' hg
-      simp only [Option.some.injEq, Prod.mk.injEq] at h
-      obtain ⟨rfl, rfl, rfl⟩ := h
-      refine ⟨matchGroup_no_space hg, ?_⟩
-      have a := matchSpaces_sound hw
-      rcases List.eq_nil_or_concat w with h0 | ⟨w', c, hc⟩
-      · exact absurd h0 a.2.1
-      · refine ⟨pre ++ w', c, by rw [hc]; simp, a.2.2 c (by rw [hc]; simp)⟩
-
 /-- What a replaced stretch looks like, for both patterns: it is not empty, contains no white
 space, and the text copied before it ends in white space. -/
 theorem replaced_stretch_shape (xs pre g rest : List Char)
@@ -232,21 +148,6 @@ written without white space and `"`, each literal followed by white space or the
 text) the result is the text with exactly the password literals replaced. -/
 theorem sanitize_multi (cs : List Clause) (z : List Char) (hf : friendly cs z = true) :
     sanitize (renderText cs z) = expectedText cs z := sanitize_friendly_eq cs z hf
-
-/-- The same clauses with other passwords. -/
-def withBodies : List Clause → List (List Char) → List Clause
-  | [], _ => []
-  | c :: cs, [] => c :: cs
-  | c :: cs, b :: bs => { c with body := b } :: withBodies cs bs
-
-theorem expectedText_withBodies (cs : List Clause) (bs : List (List Char)) (z : List Char) :
-    expectedText (withBodies cs bs) z = expectedText cs z := by
-  induction cs generalizing bs with
-  | nil => rfl
-  | cons c cs ih =>
-    cases bs with
-    | nil => rfl
-    | cons b bs => simp [withBodies, expectedText, ih]
 
 /-- Non-interference for any number of clauses: with friendly layout and friendly passwords
 the sanitized text is the same whatever the passwords are. -/
@@ -314,7 +215,7 @@ theorem sanitize_noninterference_partial (s : PwStmt) (ℓ : Layout) (p p' : Lis
 theorem sanitize_render_partial (s : PwStmt) (ℓ : Layout) (p : List Char)
     (h : RegexFriendly s ℓ p = true) :
     sanitize (render s ℓ p) =
-      (clauseOf s ℓ p).before ++ ((clauseOf s ℓ p).head ++ (['[', 'R', 'E', 'D', 'A', 'C', 'T', 'E', 'D', ']'] ++ tailOf s ℓ)) := by
+      (clauseOf s ℓ p).before ++ ((clauseOf s ℓ p).head ++ (/- [REDACTED] -/ ['[', 'R', 'E', 'D', 'A', 'C', 'T', 'E', 'D', ']'] ++ tailOf s ℓ)) := by
   unfold render
   rw [sanitize_multi _ _ h]
   rfl
@@ -322,29 +223,29 @@ theorem sanitize_render_partial (s : PwStmt) (ℓ : Layout) (p : List Char)
 /-! ### Non-vacuity: ordinary layouts are friendly -/
 
 def plain : Layout :=
-  { pre := [], kws := [['C', 'R', 'E', 'A', 'T', 'E'], ['U', 'S', 'E', 'R'], ['W', 'I', 'T', 'H'], ['P', 'A', 'S', 'S', 'W', 'O', 'R', 'D'], ['W', 'I', 'T', 'H'], ['A', 'L', 'L'], ['P', 'R', 'I', 'V', 'I', 'L', 'E', 'G', 'E', 'S']],
+  { pre := [], kws := [['C', 'R', 'E', 'A', 'T', 'E'], ['U', 'S', 'E', 'R'], ['W', 'I', 'T', 'H'], /- PASSWORD -/ ['P', 'A', 'S', 'S', 'W', 'O', 'R', 'D'], ['W', 'I', 'T', 'H'], ['A', 'L', 'L'], /- PRIVILEGES -/ ['P', 'R', 'I', 'V', 'I', 'L', 'E', 'G', 'E', 'S']],
     gaps := [[' '], [' '], [' '], [' '], [' '], [' '], [' '], [' ']], post := [] }
 
 def plainSet : Layout :=
-  { pre := [], kws := [['S', 'E', 'T'], ['P', 'A', 'S', 'S', 'W', 'O', 'R', 'D'], ['F', 'O', 'R']], gaps := [[' '], [' '], [' '], [' '], [' '], [' ']], post := [] }
+  { pre := [], kws := [['S', 'E', 'T'], /- PASSWORD -/ ['P', 'A', 'S', 'S', 'W', 'O', 'R', 'D'], ['F', 'O', 'R']], gaps := [[' '], [' '], [' '], [' '], [' '], [' ']], post := [] }
 
-example : render (.createUser ['u'] true) plain ['p', 'w'] = ['C', 'R', 'E', 'A', 'T', 'E', ' ', 'U', 'S', 'E', 'R', ' ', 'u', ' ', 'W', 'I', 'T', 'H', ' ', 'P', 'A', 'S', 'S', 'W', 'O', 'R', 'D', ' ', '\'', 'p', 'w', '\'', ' ', 'W', 'I', 'T', 'H', ' ', 'A', 'L', 'L', ' ', 'P', 'R', 'I', 'V', 'I', 'L', 'E', 'G', 'E', 'S'] := by decide
+example : render (.createUser ['u'] true) plain ['p', 'w'] = /- CREATE USER u WITH PASSWORD 'pw' WITH ALL PRIVILEGES -/ ['C', 'R', 'E', 'A', 'T', 'E', ' ', 'U', 'S', 'E', 'R', ' ', 'u', ' ', 'W', 'I', 'T', 'H', ' ', 'P', 'A', 'S', 'S', 'W', 'O', 'R', 'D', ' ', '\'', 'p', 'w', '\'', ' ', 'W', 'I', 'T', 'H', ' ', 'A', 'L', 'L', ' ', 'P', 'R', 'I', 'V', 'I', 'L', 'E', 'G', 'E', 'S'] := by decide
 example : RegexFriendly (.createUser ['u'] true) plain ['p', 'w'] = true := by decide
-example : render (.setPassword ['"', 'a', 'd', 'm', 'i', 'n', ' ', 'u', 's', 'e', 'r', '"']) plainSet ['s', '3', 'c', 'r', '=', 't'] = ['S', 'E', 'T', ' ', 'P', 'A', 'S', 'S', 'W', 'O', 'R', 'D', ' ', 'F', 'O', 'R', ' ', '"', 'a', 'd', 'm', 'i', 'n', ' ', 'u', 's', 'e', 'r', '"', ' ', '=', ' ', '\'', 's', '3', 'c', 'r', '=', 't', '\''] := by decide
-example : RegexFriendly (.setPassword ['"', 'a', 'd', 'm', 'i', 'n', ' ', 'u', 's', 'e', 'r', '"']) plainSet ['s', '3', 'c', 'r', '=', 't'] = true := by decide
+example : render (.setPassword /- "admin user" -/ ['"', 'a', 'd', 'm', 'i', 'n', ' ', 'u', 's', 'e', 'r', '"']) plainSet ['s', '3', 'c', 'r', '=', 't'] = /- SET PASSWORD FOR "admin user" = 's3cr=t' -/ ['S', 'E', 'T', ' ', 'P', 'A', 'S', 'S', 'W', 'O', 'R', 'D', ' ', 'F', 'O', 'R', ' ', '"', 'a', 'd', 'm', 'i', 'n', ' ', 'u', 's', 'e', 'r', '"', ' ', '=', ' ', '\'', 's', '3', 'c', 'r', '=', 't', '\''] := by decide
+example : RegexFriendly (.setPassword /- "admin user" -/ ['"', 'a', 'd', 'm', 'i', 'n', ' ', 'u', 's', 'e', 'r', '"']) plainSet ['s', '3', 'c', 'r', '=', 't'] = true := by decide
 
 /-- Odd but friendly: lower case, tabs and line ends as separators, no blank before `=`. -/
 def odd : Layout :=
-  { pre := ['S', 'H', 'O', 'W', ' ', 'U', 'S', 'E', 'R', 'S', ' ', ';', '\n'], kws := [['s', 'e', 't'], ['P', 'a', 's', 's', 'W', 'o', 'r', 'd'], ['f', 'O', 'R']], gaps := [['\t'], ['\n', '\n'], [' '], [], ['\n', ' '], []], post := [' ', ';', ' ', 'D', 'R', 'O', 'P', ' ', 'U', 'S', 'E', 'R', ' ', 'x'] }
+  { pre := /- SHOW USERS ;⏎ -/ ['S', 'H', 'O', 'W', ' ', 'U', 'S', 'E', 'R', 'S', ' ', ';', '\n'], kws := [['s', 'e', 't'], /- PassWord -/ ['P', 'a', 's', 's', 'W', 'o', 'r', 'd'], ['f', 'O', 'R']], gaps := [['\t'], ['\n', '\n'], [' '], [], ['\n', ' '], []], post := /-  ; DROP USER x -/ [' ', ';', ' ', 'D', 'R', 'O', 'P', ' ', 'U', 'S', 'E', 'R', ' ', 'x'] }
 
-example : render (.setPassword ['u']) odd ['a', '\\', '\'', 'b'] = ['S', 'H', 'O', 'W', ' ', 'U', 'S', 'E', 'R', 'S', ' ', ';', '\n', 's', 'e', 't', '\t', 'P', 'a', 's', 's', 'W', 'o', 'r', 'd', '\n', '\n', 'f', 'O', 'R', ' ', 'u', '=', '\n', ' ', '\'', 'a', '\\', '\'', 'b', '\'', ' ', ';', ' ', 'D', 'R', 'O', 'P', ' ', 'U', 'S', 'E', 'R', ' ', 'x'] := by decide
+example : render (.setPassword ['u']) odd ['a', '\\', '\'', 'b'] = /- SHOW USERS ;⏎set⇥PassWord⏎⏎fOR u=⏎ 'a\'b' ; DROP USER x -/ ['S', 'H', 'O', 'W', ' ', 'U', 'S', 'E', 'R', 'S', ' ', ';', '\n', 's', 'e', 't', '\t', 'P', 'a', 's', 's', 'W', 'o', 'r', 'd', '\n', '\n', 'f', 'O', 'R', ' ', 'u', '=', '\n', ' ', '\'', 'a', '\\', '\'', 'b', '\'', ' ', ';', ' ', 'D', 'R', 'O', 'P', ' ', 'U', 'S', 'E', 'R', ' ', 'x'] := by decide
 example : RegexFriendly (.setPassword ['u']) odd ['a', '\\', '\'', 'b'] = true := by decide
-example : sanitize (render (.setPassword ['u']) odd ['a', '\\', '\'', 'b']) = ['S', 'H', 'O', 'W', ' ', 'U', 'S', 'E', 'R', 'S', ' ', ';', '\n', 's', 'e', 't', '\t', 'P', 'a', 's', 's', 'W', 'o', 'r', 'd', '\n', '\n', 'f', 'O', 'R', ' ', 'u', '=', '\n', ' ', '[', 'R', 'E', 'D', 'A', 'C', 'T', 'E', 'D', ']', ' ', ';', ' ', 'D', 'R', 'O', 'P', ' ', 'U', 'S', 'E', 'R', ' ', 'x'] := by decide
+example : sanitize (render (.setPassword ['u']) odd ['a', '\\', '\'', 'b']) = /- SHOW USERS ;⏎set⇥PassWord⏎⏎fOR u=⏎ [REDACTED] ; DROP USER x -/ ['S', 'H', 'O', 'W', ' ', 'U', 'S', 'E', 'R', 'S', ' ', ';', '\n', 's', 'e', 't', '\t', 'P', 'a', 's', 's', 'W', 'o', 'r', 'd', '\n', '\n', 'f', 'O', 'R', ' ', 'u', '=', '\n', ' ', '[', 'R', 'E', 'D', 'A', 'C', 'T', 'E', 'D', ']', ' ', ';', ' ', 'D', 'R', 'O', 'P', ' ', 'U', 'S', 'E', 'R', ' ', 'x'] := by decide
 
 /-- Two statements in one text. -/
 example : friendly
-    [{ create := false, before := ['S', 'E', 'T', ' '], head := ['P', 'A', 'S', 'S', 'W', 'O', 'R', 'D', ' ', 'F', 'O', 'R', ' ', 'u', ' ', '=', ' '], body := ['p', '1'] },
-     { create := true, before := [' ', ';', ' ', 'C', 'R', 'E', 'A', 'T', 'E', ' ', 'U', 'S', 'E', 'R', ' ', 'v', ' '], head := ['W', 'I', 'T', 'H', ' ', 'P', 'A', 'S', 'S', 'W', 'O', 'R', 'D', ' '], body := ['p', '2'] }] [' ', ';'] = true := by decide
+    [{ create := false, before := ['S', 'E', 'T', ' '], head := /- PASSWORD FOR u =  -/ ['P', 'A', 'S', 'S', 'W', 'O', 'R', 'D', ' ', 'F', 'O', 'R', ' ', 'u', ' ', '=', ' '], body := ['p', '1'] },
+     { create := true, before := /-  ; CREATE USER v  -/ [' ', ';', ' ', 'C', 'R', 'E', 'A', 'T', 'E', ' ', 'U', 'S', 'E', 'R', ' ', 'v', ' '], head := /- WITH PASSWORD  -/ ['W', 'I', 'T', 'H', ' ', 'P', 'A', 'S', 'S', 'W', 'O', 'R', 'D', ' '], body := ['p', '2'] }] [' ', ';'] = true := by decide
 
 /-! ## Counterexamples: where the code leaks (kernel-checked on the model, reproduced on the
 implementation by the `sanitize.text` stream; classes in known_findings.json) -/
@@ -352,44 +253,44 @@ implementation by the `sanitize.text` stream; classes in known_findings.json) -/
 /-- Password containing white space: only the part up to the first blank is replaced,
 ` secret'` survives. -/
 theorem leak_password_whitespace_counterexample :
-    sanitize ['S', 'E', 'T', ' ', 'P', 'A', 'S', 'S', 'W', 'O', 'R', 'D', ' ', 'F', 'O', 'R', ' ', 'u', ' ', '=', ' ', '\'', 'm', 'y', ' ', 's', 'e', 'c', 'r', 'e', 't', '\''] = ['S', 'E', 'T', ' ', 'P', 'A', 'S', 'S', 'W', 'O', 'R', 'D', ' ', 'F', 'O', 'R', ' ', 'u', ' ', '=', ' ', '[', 'R', 'E', 'D', 'A', 'C', 'T', 'E', 'D', ']', ' ', 's', 'e', 'c', 'r', 'e', 't', '\''] ∧
-    RegexFriendly (.setPassword ['u']) plainSet ['m', 'y', ' ', 's', 'e', 'c', 'r', 'e', 't'] = false := by decide
+    sanitize /- SET PASSWORD FOR u = 'my secret' -/ ['S', 'E', 'T', ' ', 'P', 'A', 'S', 'S', 'W', 'O', 'R', 'D', ' ', 'F', 'O', 'R', ' ', 'u', ' ', '=', ' ', '\'', 'm', 'y', ' ', 's', 'e', 'c', 'r', 'e', 't', '\''] = /- SET PASSWORD FOR u = [REDACTED] secret' -/ ['S', 'E', 'T', ' ', 'P', 'A', 'S', 'S', 'W', 'O', 'R', 'D', ' ', 'F', 'O', 'R', ' ', 'u', ' ', '=', ' ', '[', 'R', 'E', 'D', 'A', 'C', 'T', 'E', 'D', ']', ' ', 's', 'e', 'c', 'r', 'e', 't', '\''] ∧
+    RegexFriendly (.setPassword ['u']) plainSet /- my secret -/ ['m', 'y', ' ', 's', 'e', 'c', 'r', 'e', 't'] = false := by decide
 
 /-- No white space between `=` and the literal: the pattern requires `\s+` there, nothing is
 replaced at all. -/
 theorem leak_no_space_after_eq_counterexample :
-    sanitize ['S', 'E', 'T', ' ', 'P', 'A', 'S', 'S', 'W', 'O', 'R', 'D', ' ', 'F', 'O', 'R', ' ', 'u', '=', '\'', 'p', 'w', '\''] = ['S', 'E', 'T', ' ', 'P', 'A', 'S', 'S', 'W', 'O', 'R', 'D', ' ', 'F', 'O', 'R', ' ', 'u', '=', '\'', 'p', 'w', '\''] ∧
-    sanitize ['C', 'R', 'E', 'A', 'T', 'E', ' ', 'U', 'S', 'E', 'R', ' ', 'u', ' ', 'W', 'I', 'T', 'H', ' ', 'P', 'A', 'S', 'S', 'W', 'O', 'R', 'D', '\'', 'p', 'w', '\''] = ['C', 'R', 'E', 'A', 'T', 'E', ' ', 'U', 'S', 'E', 'R', ' ', 'u', ' ', 'W', 'I', 'T', 'H', ' ', 'P', 'A', 'S', 'S', 'W', 'O', 'R', 'D', '\'', 'p', 'w', '\''] := by decide
+    sanitize /- SET PASSWORD FOR u='pw' -/ ['S', 'E', 'T', ' ', 'P', 'A', 'S', 'S', 'W', 'O', 'R', 'D', ' ', 'F', 'O', 'R', ' ', 'u', '=', '\'', 'p', 'w', '\''] = /- SET PASSWORD FOR u='pw' -/ ['S', 'E', 'T', ' ', 'P', 'A', 'S', 'S', 'W', 'O', 'R', 'D', ' ', 'F', 'O', 'R', ' ', 'u', '=', '\'', 'p', 'w', '\''] ∧
+    sanitize /- CREATE USER u WITH PASSWORD'pw' -/ ['C', 'R', 'E', 'A', 'T', 'E', ' ', 'U', 'S', 'E', 'R', ' ', 'u', ' ', 'W', 'I', 'T', 'H', ' ', 'P', 'A', 'S', 'S', 'W', 'O', 'R', 'D', '\'', 'p', 'w', '\''] = /- CREATE USER u WITH PASSWORD'pw' -/ ['C', 'R', 'E', 'A', 'T', 'E', ' ', 'U', 'S', 'E', 'R', ' ', 'u', ' ', 'W', 'I', 'T', 'H', ' ', 'P', 'A', 'S', 'S', 'W', 'O', 'R', 'D', '\'', 'p', 'w', '\''] := by decide
 
 /-- Password containing a double quote: the group ends at the `"`, `cd'` survives. -/
 theorem leak_password_dquote_counterexample :
-    sanitize ['S', 'E', 'T', ' ', 'P', 'A', 'S', 'S', 'W', 'O', 'R', 'D', ' ', 'F', 'O', 'R', ' ', 'u', ' ', '=', ' ', '\'', 'a', 'b', '"', 'c', 'd', '\''] = ['S', 'E', 'T', ' ', 'P', 'A', 'S', 'S', 'W', 'O', 'R', 'D', ' ', 'F', 'O', 'R', ' ', 'u', ' ', '=', ' ', '[', 'R', 'E', 'D', 'A', 'C', 'T', 'E', 'D', ']', 'c', 'd', '\''] ∧
+    sanitize /- SET PASSWORD FOR u = 'ab"cd' -/ ['S', 'E', 'T', ' ', 'P', 'A', 'S', 'S', 'W', 'O', 'R', 'D', ' ', 'F', 'O', 'R', ' ', 'u', ' ', '=', ' ', '\'', 'a', 'b', '"', 'c', 'd', '\''] = /- SET PASSWORD FOR u = [REDACTED]cd' -/ ['S', 'E', 'T', ' ', 'P', 'A', 'S', 'S', 'W', 'O', 'R', 'D', ' ', 'F', 'O', 'R', ' ', 'u', ' ', '=', ' ', '[', 'R', 'E', 'D', 'A', 'C', 'T', 'E', 'D', ']', 'c', 'd', '\''] ∧
     RegexFriendly (.setPassword ['u']) plainSet ['a', 'b', '"', 'c', 'd'] = false := by decide
 
 /-- A comment between the keywords, or between `=` and the literal (there the comment is
 replaced and the password stays). -/
 theorem leak_comment_counterexample :
-    sanitize ['C', 'R', 'E', 'A', 'T', 'E', ' ', 'U', 'S', 'E', 'R', ' ', 'u', ' ', 'W', 'I', 'T', 'H', ' ', '/', '*', 'c', '*', '/', ' ', 'P', 'A', 'S', 'S', 'W', 'O', 'R', 'D', ' ', '\'', 'p', 'w', '\''] = ['C', 'R', 'E', 'A', 'T', 'E', ' ', 'U', 'S', 'E', 'R', ' ', 'u', ' ', 'W', 'I', 'T', 'H', ' ', '/', '*', 'c', '*', '/', ' ', 'P', 'A', 'S', 'S', 'W', 'O', 'R', 'D', ' ', '\'', 'p', 'w', '\''] ∧
-    sanitize ['S', 'E', 'T', ' ', 'P', 'A', 'S', 'S', 'W', 'O', 'R', 'D', ' ', '/', '*', 'c', '*', '/', ' ', 'F', 'O', 'R', ' ', 'u', ' ', '=', ' ', '\'', 'p', 'w', '\''] = ['S', 'E', 'T', ' ', 'P', 'A', 'S', 'S', 'W', 'O', 'R', 'D', ' ', '/', '*', 'c', '*', '/', ' ', 'F', 'O', 'R', ' ', 'u', ' ', '=', ' ', '\'', 'p', 'w', '\''] ∧
-    sanitize ['S', 'E', 'T', ' ', 'P', 'A', 'S', 'S', 'W', 'O', 'R', 'D', ' ', 'F', 'O', 'R', ' ', 'u', ' ', '=', ' ', '/', '*', 'c', '*', '/', ' ', '\'', 'p', 'w', '\''] = ['S', 'E', 'T', ' ', 'P', 'A', 'S', 'S', 'W', 'O', 'R', 'D', ' ', 'F', 'O', 'R', ' ', 'u', ' ', '=', ' ', '[', 'R', 'E', 'D', 'A', 'C', 'T', 'E', 'D', ']', ' ', '\'', 'p', 'w', '\''] := by decide
+    sanitize /- CREATE USER u WITH /*c*/ PASSWORD 'pw' -/ ['C', 'R', 'E', 'A', 'T', 'E', ' ', 'U', 'S', 'E', 'R', ' ', 'u', ' ', 'W', 'I', 'T', 'H', ' ', '/', '*', 'c', '*', '/', ' ', 'P', 'A', 'S', 'S', 'W', 'O', 'R', 'D', ' ', '\'', 'p', 'w', '\''] = /- CREATE USER u WITH /*c*/ PASSWORD 'pw' -/ ['C', 'R', 'E', 'A', 'T', 'E', ' ', 'U', 'S', 'E', 'R', ' ', 'u', ' ', 'W', 'I', 'T', 'H', ' ', '/', '*', 'c', '*', '/', ' ', 'P', 'A', 'S', 'S', 'W', 'O', 'R', 'D', ' ', '\'', 'p', 'w', '\''] ∧
+    sanitize /- SET PASSWORD /*c*/ FOR u = 'pw' -/ ['S', 'E', 'T', ' ', 'P', 'A', 'S', 'S', 'W', 'O', 'R', 'D', ' ', '/', '*', 'c', '*', '/', ' ', 'F', 'O', 'R', ' ', 'u', ' ', '=', ' ', '\'', 'p', 'w', '\''] = /- SET PASSWORD /*c*/ FOR u = 'pw' -/ ['S', 'E', 'T', ' ', 'P', 'A', 'S', 'S', 'W', 'O', 'R', 'D', ' ', '/', '*', 'c', '*', '/', ' ', 'F', 'O', 'R', ' ', 'u', ' ', '=', ' ', '\'', 'p', 'w', '\''] ∧
+    sanitize /- SET PASSWORD FOR u = /*c*/ 'pw' -/ ['S', 'E', 'T', ' ', 'P', 'A', 'S', 'S', 'W', 'O', 'R', 'D', ' ', 'F', 'O', 'R', ' ', 'u', ' ', '=', ' ', '/', '*', 'c', '*', '/', ' ', '\'', 'p', 'w', '\''] = /- SET PASSWORD FOR u = [REDACTED] 'pw' -/ ['S', 'E', 'T', ' ', 'P', 'A', 'S', 'S', 'W', 'O', 'R', 'D', ' ', 'F', 'O', 'R', ' ', 'u', ' ', '=', ' ', '[', 'R', 'E', 'D', 'A', 'C', 'T', 'E', 'D', ']', ' ', '\'', 'p', 'w', '\''] := by decide
 
 /-- A user name containing `=` stops `[^=]*` too early: nothing is replaced. -/
 theorem leak_equals_in_name_counterexample :
-    sanitize ['S', 'E', 'T', ' ', 'P', 'A', 'S', 'S', 'W', 'O', 'R', 'D', ' ', 'F', 'O', 'R', ' ', '"', 'a', '=', 'b', '"', ' ', '=', ' ', '\'', 'p', 'w', '\''] = ['S', 'E', 'T', ' ', 'P', 'A', 'S', 'S', 'W', 'O', 'R', 'D', ' ', 'F', 'O', 'R', ' ', '"', 'a', '=', 'b', '"', ' ', '=', ' ', '\'', 'p', 'w', '\''] := by decide
+    sanitize /- SET PASSWORD FOR "a=b" = 'pw' -/ ['S', 'E', 'T', ' ', 'P', 'A', 'S', 'S', 'W', 'O', 'R', 'D', ' ', 'F', 'O', 'R', ' ', '"', 'a', '=', 'b', '"', ' ', '=', ' ', '\'', 'p', 'w', '\''] = /- SET PASSWORD FOR "a=b" = 'pw' -/ ['S', 'E', 'T', ' ', 'P', 'A', 'S', 'S', 'W', 'O', 'R', 'D', ' ', 'F', 'O', 'R', ' ', '"', 'a', '=', 'b', '"', ' ', '=', ' ', '\'', 'p', 'w', '\''] := by decide
 
 /-- Text that is no password literal is replaced: a string in a query that merely mentions
 `password for`, the `;` (and the next keyword) directly behind a literal, part of a quoted user
 name. -/
 theorem redacts_outside_literal_counterexample :
-    sanitize ['S', 'E', 'L', 'E', 'C', 'T', ' ', '"', 'p', 'a', 's', 's', 'w', 'o', 'r', 'd', ' ', 'f', 'o', 'r', '"', ' ', 'F', 'R', 'O', 'M', ' ', 'm', ' ', 'W', 'H', 'E', 'R', 'E', ' ', 'a', ' ', '=', ' ', '\'', 'b', '\''] = ['S', 'E', 'L', 'E', 'C', 'T', ' ', '"', 'p', 'a', 's', 's', 'w', 'o', 'r', 'd', ' ', 'f', 'o', 'r', '"', ' ', 'F', 'R', 'O', 'M', ' ', 'm', ' ', 'W', 'H', 'E', 'R', 'E', ' ', 'a', ' ', '=', ' ', '[', 'R', 'E', 'D', 'A', 'C', 'T', 'E', 'D', ']'] ∧
-    sanitize ['S', 'E', 'T', ' ', 'P', 'A', 'S', 'S', 'W', 'O', 'R', 'D', ' ', 'F', 'O', 'R', ' ', 'u', ' ', '=', ' ', '\'', 'p', 'w', '\'', ';', 'D', 'R', 'O', 'P', ' ', 'U', 'S', 'E', 'R', ' ', 'x'] = ['S', 'E', 'T', ' ', 'P', 'A', 'S', 'S', 'W', 'O', 'R', 'D', ' ', 'F', 'O', 'R', ' ', 'u', ' ', '=', ' ', '[', 'R', 'E', 'D', 'A', 'C', 'T', 'E', 'D', ']', ' ', 'U', 'S', 'E', 'R', ' ', 'x'] ∧
-    sanitize ['C', 'R', 'E', 'A', 'T', 'E', ' ', 'U', 'S', 'E', 'R', ' ', '"', 'w', 'i', 't', 'h', ' ', 'p', 'a', 's', 's', 'w', 'o', 'r', 'd', ' ', 'x', '"', ' ', 'W', 'I', 'T', 'H', ' ', 'P', 'A', 'S', 'S', 'W', 'O', 'R', 'D', ' ', '\'', 'p', 'w', '\''] = ['C', 'R', 'E', 'A', 'T', 'E', ' ', 'U', 'S', 'E', 'R', ' ', '"', 'w', 'i', 't', 'h', ' ', 'p', 'a', 's', 's', 'w', 'o', 'r', 'd', ' ', '[', 'R', 'E', 'D', 'A', 'C', 'T', 'E', 'D', ']', ' ', 'W', 'I', 'T', 'H', ' ', 'P', 'A', 'S', 'S', 'W', 'O', 'R', 'D', ' ', '[', 'R', 'E', 'D', 'A', 'C', 'T', 'E', 'D', ']'] := by decide
+    sanitize /- SELECT "password for" FROM m WHERE a = 'b' -/ ['S', 'E', 'L', 'E', 'C', 'T', ' ', '"', 'p', 'a', 's', 's', 'w', 'o', 'r', 'd', ' ', 'f', 'o', 'r', '"', ' ', 'F', 'R', 'O', 'M', ' ', 'm', ' ', 'W', 'H', 'E', 'R', 'E', ' ', 'a', ' ', '=', ' ', '\'', 'b', '\''] = /- SELECT "password for" FROM m WHERE a = [REDACTED] -/ ['S', 'E', 'L', 'E', 'C', 'T', ' ', '"', 'p', 'a', 's', 's', 'w', 'o', 'r', 'd', ' ', 'f', 'o', 'r', '"', ' ', 'F', 'R', 'O', 'M', ' ', 'm', ' ', 'W', 'H', 'E', 'R', 'E', ' ', 'a', ' ', '=', ' ', '[', 'R', 'E', 'D', 'A', 'C', 'T', 'E', 'D', ']'] ∧
+    sanitize /- SET PASSWORD FOR u = 'pw';DROP USER x -/ ['S', 'E', 'T', ' ', 'P', 'A', 'S', 'S', 'W', 'O', 'R', 'D', ' ', 'F', 'O', 'R', ' ', 'u', ' ', '=', ' ', '\'', 'p', 'w', '\'', ';', 'D', 'R', 'O', 'P', ' ', 'U', 'S', 'E', 'R', ' ', 'x'] = /- SET PASSWORD FOR u = [REDACTED] USER x -/ ['S', 'E', 'T', ' ', 'P', 'A', 'S', 'S', 'W', 'O', 'R', 'D', ' ', 'F', 'O', 'R', ' ', 'u', ' ', '=', ' ', '[', 'R', 'E', 'D', 'A', 'C', 'T', 'E', 'D', ']', ' ', 'U', 'S', 'E', 'R', ' ', 'x'] ∧
+    sanitize /- CREATE USER "with password x" WITH PASSWORD 'pw' -/ ['C', 'R', 'E', 'A', 'T', 'E', ' ', 'U', 'S', 'E', 'R', ' ', '"', 'w', 'i', 't', 'h', ' ', 'p', 'a', 's', 's', 'w', 'o', 'r', 'd', ' ', 'x', '"', ' ', 'W', 'I', 'T', 'H', ' ', 'P', 'A', 'S', 'S', 'W', 'O', 'R', 'D', ' ', '\'', 'p', 'w', '\''] = /- CREATE USER "with password [REDACTED] WITH PASSWORD [REDACTED] -/ ['C', 'R', 'E', 'A', 'T', 'E', ' ', 'U', 'S', 'E', 'R', ' ', '"', 'w', 'i', 't', 'h', ' ', 'p', 'a', 's', 's', 'w', 'o', 'r', 'd', ' ', '[', 'R', 'E', 'D', 'A', 'C', 'T', 'E', 'D', ']', ' ', 'W', 'I', 'T', 'H', ' ', 'P', 'A', 'S', 'S', 'W', 'O', 'R', 'D', ' ', '[', 'R', 'E', 'D', 'A', 'C', 'T', 'E', 'D', ']'] := by decide
 
 /-- Case folding is Unicode simple folding: U+017F matches `s` (the scanner does not accept such a
 keyword, so this only concerns invalid statements). -/
-example : sanitize ['s', 'e', 't', ' ', 'p', 'a', (Char.ofNat 0x17f), (Char.ofNat 0x17f), 'w', 'o', 'r', 'd', ' ', 'f', 'o', 'r', ' ', 'u', ' ', '=', ' ', '\'', 'p', 'w', '\''] = ['s', 'e', 't', ' ', 'p', 'a', (Char.ofNat 0x17f), (Char.ofNat 0x17f), 'w', 'o', 'r', 'd', ' ', 'f', 'o', 'r', ' ', 'u', ' ', '=', ' ', '[', 'R', 'E', 'D', 'A', 'C', 'T', 'E', 'D', ']'] := by decide
+example : sanitize /- set paſſword for u = 'pw' -/ ['s', 'e', 't', ' ', 'p', 'a', (Char.ofNat 0x17f), (Char.ofNat 0x17f), 'w', 'o', 'r', 'd', ' ', 'f', 'o', 'r', ' ', 'u', ' ', '=', ' ', '\'', 'p', 'w', '\''] = /- set paſſword for u = [REDACTED] -/ ['s', 'e', 't', ' ', 'p', 'a', (Char.ofNat 0x17f), (Char.ofNat 0x17f), 'w', 'o', 'r', 'd', ' ', 'f', 'o', 'r', ' ', 'u', ' ', '=', ' ', '[', 'R', 'E', 'D', 'A', 'C', 'T', 'E', 'D', ']'] := by decide
 
 /-- The second pass sees the result of the first. -/
-example : sanitize ['w', 'i', 't', 'h', ' ', 'p', 'a', 's', 's', 'w', 'o', 'r', 'd', ' ', 'f', 'o', 'r', ' ', 'x', ' ', '=', ' ', 'p', 'w'] = ['w', 'i', 't', 'h', ' ', 'p', 'a', 's', 's', 'w', 'o', 'r', 'd', ' ', '[', 'R', 'E', 'D', 'A', 'C', 'T', 'E', 'D', ']', ' ', 'x', ' ', '=', ' ', '[', 'R', 'E', 'D', 'A', 'C', 'T', 'E', 'D', ']'] := by decide
+example : sanitize /- with password for x = pw -/ ['w', 'i', 't', 'h', ' ', 'p', 'a', 's', 's', 'w', 'o', 'r', 'd', ' ', 'f', 'o', 'r', ' ', 'x', ' ', '=', ' ', 'p', 'w'] = /- with password [REDACTED] x = [REDACTED] -/ ['w', 'i', 't', 'h', ' ', 'p', 'a', 's', 's', 'w', 'o', 'r', 'd', ' ', '[', 'R', 'E', 'D', 'A', 'C', 'T', 'E', 'D', ']', ' ', 'x', ' ', '=', ' ', '[', 'R', 'E', 'D', 'A', 'C', 'T', 'E', 'D', ']'] := by decide
 
 end InfluxQL.C15
